@@ -20,6 +20,7 @@ import Ajson.Proofs.Frame
 import Ajson.Proofs.CloneIso
 import Ajson.Proofs.Sides
 import Ajson.Proofs.CloneSound
+import Ajson.Proofs.Steps
 import Ajson.Proofs.CloneValue
 import Ajson.Model.Decode
 import Ajson.Spec.WF
@@ -139,7 +140,7 @@ theorem C14_any_history_with_clones (ss : List Step) (h : Heap) (hs : Struct h) 
 
 /-- the hypothesis is satisfiable: clone the root of a two-node tree, then edit the copy's child and clone the copy -/
 example : ValidSteps { nodes := [{ type := .array, children := some [([48], 1)] }, { type := .null, parent := some 0, index := some 0 }] }
-    [.clone 0, .edit (.setNull 3), .clone 2, .edit (.appendArray 2 4), .setArray 0 [3, 1], .setObject 4 [([97], 2)]] := by
+    [.clone 0, .edit (.setNull 3), .clone 2, .edit (.appendArray 2 4), .setArray 0 [3, 1], .setObject 4 [([97], 2)], .setNode 1 4] := by
   simp only [ValidSteps, Step.names, Edit.names, Step.run, Edit.run]
   decide
 
